@@ -71,8 +71,8 @@ class Scheduler(object):
                 chosen = enabled[0]
             current = chosen
             sems[chosen].release()
-            if not back.acquire(timeout=30):
-                raise Divergence('thread %d neither reached a point nor finished within 30 s (deadlock?)' % chosen)
+            if not back.acquire(timeout=300):
+                raise Divergence('thread %d neither reached a point nor finished within 300 s (deadlock?)' % chosen)
         for t in threads:
             t.join(5)
         return run
